@@ -7,6 +7,8 @@ From RtoscV Require ArgVal.AvModel.
 From RtoscV Require Import Save.TopoModel Save.SaveModel Save.SaveProofs Save.RoundProofs Save.RoundFull Save.PermApp Save.SortStage Save.EqStage Save.SaveRegress.
 From RtoscV Require Import Ports.WalkModel Ports.DispatchModel Ports.TreeProofs Ports.DispatchWalk Ports.NamesModel.
 From RtoscV Require Import Save.TreeApp Save.DispatchStage Save.TreeStage Save.WalkStage Save.TreePipeline.
+From RtoscV Require Pretty.Tok Pretty.PrintModel Pretty.ScanModel Pretty.RunProofs Pretty.ListProofs.
+From RtoscV Require Import Save.PrintStage Save.PrintLines Save.PipelineReal.
 Import ListNotations.
 Local Open Scope Z_scope.
 
@@ -399,3 +401,84 @@ Theorem C12_pipeline_tree_walk_nonvacuous :
   walk_tree fx_tree fx_state = [0; 1; 2]%nat /\
   walk_tree fx_tree (initial (app_of_tree fx_tree)) = [0; 2]%nat.
 Proof. exact pipeline_tree_walk_nonvacuous. Qed.
+
+(* ======================================================================== *)
+(* Stage 5: the print/scan stage (C10)                                         *)
+(* ======================================================================== *)
+(* A savefile line is  address SP printed-values NL  - the text rtosc_print_message makes
+   (C10's print_message) and a line feed.  With range compression on (the default options)
+   and values in C10's goodc fragment, the checker and the scanner read the message back
+   ALSO WHEN MORE TEXT FOLLOWS the line feed - nothing, or the next message: the scanner
+   stops in front of the next '/' (C10's own theorems are about a text that ends with the
+   message).  The slots do not depend on what follows. *)
+Theorem C12_message_reads_tl : forall (dec2f dec2d : list Z -> Z) o addr vs text w,
+  PrintModel.compress o = true -> RunProofs.good_addr addr -> Forall ListProofs.goodc vs ->
+  Z.of_nat (length vs) < 2 ^ 31 ->
+  PrintModel.print_message o addr vs 0 = Some (text, w) ->
+  exists slots,
+    PrintModel.expand slots = Some vs /\ (exists sfx, text = addr ++ sfx) /\
+    forall tl, tail_ok tl ->
+    ScanModel.count_printed_arg_vals_of_msg dec2f dec2d (text ++ 10 :: tl)
+      = ScanModel.Ok (true, Z.of_nat (length slots)) /\
+    ScanModel.scan_message dec2f dec2d (text ++ 10 :: tl) (Z.of_nat (length slots))
+      = ScanModel.Ok (addr, slots, tl).
+Proof. exact message_reads_tl. Qed.
+
+(* a scalar line of the file with goodc values (int, char, T/F, strings and quoted symbols
+   without '.') reads back: the loader's line is the saved line *)
+Theorem C12_goodc_line_reads : forall (dec2f dec2d : list Z -> Z) o l t w,
+  PrintModel.compress o = true -> goodc_line l ->
+  PrintModel.print_message o (l_path l) (line_avs l) 0 = Some (t, w) -> line_reads dec2f dec2d o l.
+Proof. exact goodc_line_reads. Qed.
+
+(* lines do not interfere: if every line reads back whatever follows it, the first loop of
+   dispatch_printed_messages reads the body back line by line, each with the bytes it took *)
+Theorem C12_body_scans : forall (dec2f dec2d : list Z -> Z) o ls b,
+  Forall (line_reads dec2f dec2d o) ls -> print_body o ls = Some b ->
+  exists rds, length rds = length ls /\ Forall (fun rd => 0 <= rd) rds /\
+    forall fuel, (length ls < fuel)%nat ->
+      scan_body dec2f dec2d fuel b = map (fun lr => Msg (fst lr) (snd lr)) (combine ls rds).
+Proof. exact body_scans. Qed.
+
+(* C12_roundtrip with EVERY stage of the pipeline the model of the code that implements it:
+   walk_ports with the runtime object (C09), rtosc_arg_vals_eq (C16), rtosc_print_message and
+   the body loop (C10), scan_deps + Kahn (C13), Ports::dispatch and the macros' callbacks
+   (C04 + C14).  _partial - what remains:
+     * [full_conditions] (well-formed application, shape of the state, saved values stable),
+       [comparable] (no NaN), [cstrings] (no NUL in strings);
+     * [declared] (decidable, C13_declared_computed) and an acyclic dependency scan;
+     * decidable conditions on the tree: names_ok, C04's tree_ok, pt_wf, distinct sub-tree
+       and element addresses;
+     * per saved LINE: [line_reads] - proved for scalar lines with goodc values
+       (C12_goodc_line_reads); for lines with floats ("the float-text premise"), plain option
+       symbols and "[...]" array lines it is assumed. *)
+Theorem C12_roundtrip_tree_real_partial :
+  forall (dec2f dec2d : list Z -> Z) o hp tid (t : list pt) apropos fuel F st ps,
+    let a := app_of_tree t in
+    names_ok (sports_of t) = true -> tree_ok (to_tree hp tid (sports_of t)) -> Forall pt_wf t ->
+    NoDup (map dir_addr (dirs_root t)) -> NoDup (app_addresses a) ->
+    full_conditions a st -> comparable a st -> cstrings st ->
+    declared a apropos ->
+    pushes line apropos fuel (msgs (save_lines a st)) = Some ps -> ranked ps ->
+    Forall (line_reads dec2f dec2d o) (save_lines a st) ->
+    exists fin,
+      real_load (option (list Z)) (scan_text_real dec2f dec2d) (fun _ l s => tree_apply_line hp tid t l s)
+                (fun _ ls => sort_by_load_order apropos fuel ls) a
+                (real_save (option (list Z)) (fun _ s => walk_tree t s) (av_eq_real F) (print_body o) a st)
+                (initial a)
+      = Some (Z.of_nat (length (save_lines a st)), fin) /\
+      forall q, (q < length a)%nat -> p_nodef (port_at a q) = false -> live a st q = true ->
+                restored_val (port_at a q) (val_at st q) (val_at fin q).
+Proof. exact roundtrip_tree_real. Qed.
+
+(* the tree of C12_pipeline_tree_nonvacuous with the switch on and /s/x = 9: all premises
+   hold, the body is "/e true\n/s/x 9\n", both lines read back *)
+Theorem C12_roundtrip_tree_real_nonvacuous : forall (dec2f dec2d : list Z -> Z),
+  let a := app_of_tree fx_tree in
+  full_conditions a fx_state2 /\ comparable a fx_state2 /\ cstrings fx_state2 /\
+  declared a apropos_fx /\
+  (exists ps, pushes line apropos_fx 20 (msgs (save_lines a fx_state2)) = Some ps /\ ranked ps) /\
+  print_body opts_default (save_lines a fx_state2)
+    = Some [47; 101; 32; 116; 114; 117; 101; 10;  47; 115; 47; 120; 32; 57; 10] /\
+  Forall (line_reads dec2f dec2d opts_default) (save_lines a fx_state2).
+Proof. exact roundtrip_tree_real_nonvacuous. Qed.
